@@ -25,7 +25,7 @@ def _canon_by_text(objs, text_rank):
 
 
 def correspondence(ctx):
-    per = 500 if ctx.thorough else 100
+    per = 2500 if ctx.thorough else 100
     for name in S.ALL:
         rcls = S.rclass(name) or B._generic_range_for(S.vclass(name))
         rng = ctx.rng("c10", name)
